@@ -162,6 +162,74 @@ Proof.
   split; [exact H|]. eapply log_not_dropped; exact H.
 Qed.
 
+(* ---- smart sampling, any category rates ---- *)
+(* the rate _should_drop_by_sampling looks up: the category's rate, else sample_rate *)
+Definition eff_rate (c : config) (payload : list (string * value)) : nview :=
+  match assoc_g (category payload) (c_strategy c) with
+  | Some r => r | None => c_rate c end.
+
+Lemma dy_cmp_antisym m1 e1 m2 e2 : dy_cmp m2 e2 m1 e1 = CompOpp (dy_cmp m1 e1 m2 e2).
+Proof. unfold dy_cmp. rewrite (Z.min_comm e2 e1). apply Z.compare_antisym. Qed.
+
+Lemma ge_one_not_lt_one r : f_le nv_one r = true -> f_lt r nv_one = false.
+Proof.
+  destruct r as [|s|m e]; unfold f_le, f_lt, nv_one; simpl.
+  - discriminate.
+  - destruct s; simpl; congruence.
+  - rewrite (dy_cmp_antisym 1 0 m e). destruct (dy_cmp 1 0 m e); simpl; congruence.
+Qed.
+
+Lemma le_zero_lt_one r : f_le r nv_zero = true -> f_lt r nv_one = true.
+Proof.
+  destruct r as [|s|m e]; unfold f_le, f_lt, nv_one, nv_zero; simpl.
+  - discriminate.
+  - destruct s; simpl; congruence.
+  - set (c := Z.min 0 e).
+    rewrite (dy_cmp_scale m e 0 0 c) by (unfold c; lia).
+    rewrite (dy_cmp_scale m e 1 0 c) by (unfold c; lia).
+    assert (0 < 2 ^ (0 - c)) by (apply Z.pow_pos_nonneg; unfold c; lia).
+    destruct (m * 2 ^ (e - c) ?= 0 * 2 ^ (0 - c)) eqn:E1; try discriminate; intros _.
+    + apply Z.compare_eq in E1.
+      assert (m * 2 ^ (e - c) < 1 * 2 ^ (0 - c)) as Hlt by lia.
+      rewrite <- Z.compare_lt_iff in Hlt. rewrite Hlt. reflexivity.
+    + rewrite Z.compare_lt_iff in E1.
+      assert (m * 2 ^ (e - c) < 1 * 2 ^ (0 - c)) as Hlt by lia.
+      rewrite <- Z.compare_lt_iff in Hlt. rewrite Hlt. reflexivity.
+Qed.
+
+Lemma le_not_gt a b : f_le a b = true -> f_gt a b = false.
+Proof. unfold f_le, f_gt. destruct (nv_cmp a b) as [[]|]; congruence. Qed.
+
+Lemma clamp_le_zero r : f_le r nv_zero = true -> py_max nv_zero (py_min nv_one r) = nv_zero.
+Proof.
+  intros H. unfold py_min. rewrite (le_zero_lt_one _ H).
+  unfold py_max. rewrite (le_not_gt _ _ H). reflexivity.
+Qed.
+Lemma clamp_ge_one r : f_le nv_one r = true -> py_max nv_zero (py_min nv_one r) = nv_one.
+Proof.
+  intros H. unfold py_min. rewrite (ge_one_not_lt_one _ H). reflexivity.
+Qed.
+
+Theorem sampling_smart_rate0 c payload u size :
+  c_smart c = true -> f_le (eff_rate c payload) nv_zero = true ->
+  log c payload u size = LDropped 0.
+Proof.
+  intros Hs Hr. apply log_dropped. unfold should_drop. rewrite Hs. simpl negb. cbv iota.
+  fold (eff_rate c payload). rewrite (clamp_le_zero _ Hr). reflexivity.
+Qed.
+
+Theorem sampling_smart_rate1 c payload u size :
+  c_smart c = true -> f_le nv_one (eff_rate c payload) = true -> in_unit u ->
+  should_drop c payload u = (false, 1%nat) /\ forall d, log c payload u size <> LDropped d.
+Proof.
+  intros Hs Hr Hu.
+  assert (H : should_drop c payload u = (false, 1%nat)).
+  { unfold should_drop. rewrite Hs. simpl negb. cbv iota.
+    fold (eff_rate c payload). rewrite (clamp_ge_one _ Hr).
+    apply gate_rate1; [reflexivity|exact Hu]. }
+  split; [exact H|]. eapply log_not_dropped; exact H.
+Qed.
+
 (* ================================================================== *)
 (* 3. size bound, priority, caller's env                               *)
 (* ================================================================== *)
@@ -635,6 +703,76 @@ Proof.
                 [apply nth_error_None_ge; exact Ey|reflexivity|reflexivity].
         -- destruct (nth_grow_beyond [] (S (Z.to_nat i)) (Z.to_nat i)) as [-> | ->];
              simpl; try lia; reflexivity.
+Qed.
+
+(* a position that leaves the path at an index step (same list, another index):
+   what was there stays there (growth only appends, the write hits the other index) *)
+Lemma lookup_some_head_obj k r y x : lookup (KS k :: r) y = Some x -> as_obj y = y.
+Proof. destruct y; simpl; try discriminate; reflexivity. Qed.
+
+Theorem frame_index : forall segs v e c j j' r r' x,
+  steps_of segs = Some (c ++ IS j' :: r')%list -> j <> j' ->
+  lookup (c ++ IS j :: r) e = Some x ->
+  lookup (c ++ IS j :: r) (set_segs segs v e) = Some x.
+Proof.
+  induction segs as [|s rest IH]; intros v e c j j' r r' x Hs Hj Hx.
+  - simpl in Hs. destruct c; discriminate.
+  - destruct e as [| | | | |kvs|];
+      try (destruct s as [p|q i| |]; exact Hx).
+    destruct (steps_of_cons_inv _ _ _ Hs) as [(p & pr & -> & Hr & Hp)|(q & i & pr & -> & Hi & Hr & Hp)].
+    + destruct c as [|st c']; [simpl in Hp; discriminate|].
+      simpl in Hp. inversion Hp; subst st pr.
+      destruct rest as [|s2 rest2].
+      { simpl in Hr. inversion Hr. destruct c'; discriminate. }
+      rewrite set_key_more. simpl app in *. cbn [lookup] in *. rewrite assoc_upsert_same.
+      destruct (assoc p kvs) as [y|] eqn:Ea; [|discriminate].
+      assert (Hhd : exists kk rr, (c' ++ IS j :: r)%list = KS kk :: rr).
+      { destruct c' as [|st2 c2].
+        - destruct (steps_head (s2 :: rest2) (IS j') r' Hr) as [kk Hkk]. discriminate.
+        - destruct (steps_head (s2 :: rest2) st2 (c2 ++ IS j' :: r')%list Hr) as [kk ->]. simpl. eauto. }
+      destruct Hhd as (kk & rr & Hrw).
+      unfold get_or_null. rewrite Ea.
+      assert (as_obj y = y) as -> by (rewrite Hrw in Hx; eapply lookup_some_head_obj; exact Hx).
+      eapply IH; eassumption.
+    + pose proof (norm_idx_nonneg i (List.length (idx_l1 q i kvs)) Hi) as Hn.
+      pose proof (idx_l1_nonneg_lt q i kvs Hi) as Hlt.
+      destruct c as [|st c']; [simpl in Hp; discriminate|].
+      simpl in Hp. inversion Hp as [[Hst Hrest]]. subst st.
+      simpl app in Hx. cbn [lookup] in Hx.
+      destruct (assoc q kvs) as [y0|] eqn:Ea; [|discriminate].
+      destruct c' as [|st2 c2].
+      * (* the divergence is this segment's own index *)
+        simpl in Hrest. inversion Hrest; subst j' r'.
+        simpl app in *. cbn [lookup] in Hx.
+        destruct y0 as [| | | |l| |]; try discriminate.
+        destruct (nth_error l j) as [y|] eqn:Ey; [|discriminate].
+        assert (Hl1 : nth_error (idx_l1 q i kvs) j = Some y).
+        { unfold idx_l1. rewrite Hi. unfold idx_l0. rewrite Ea. unfold grow.
+          rewrite nth_error_app1 by (eapply nth_error_Some_lt; exact Ey). exact Ey. }
+        destruct rest as [|s2 rest2];
+          [rewrite (set_idx_last _ _ _ _ _ Hn)|rewrite (set_idx_more _ _ _ _ _ _ _ Hn)];
+          cbn [lookup]; rewrite assoc_upsert_same;
+          rewrite nth_error_set_nth_other by congruence; rewrite Hl1; exact Hx.
+      * simpl in Hrest. inversion Hrest as [[Hst2 Hpr]]. subst st2 pr.
+        destruct rest as [|s2 rest2].
+        { simpl in Hr. inversion Hr. destruct c2; discriminate. }
+        rewrite (set_idx_more _ _ _ _ _ _ _ Hn).
+        simpl app in *. cbn [lookup] in *. rewrite assoc_upsert_same.
+        rewrite nth_error_set_nth_same by exact Hlt.
+        destruct y0 as [| | | |l| |]; try discriminate.
+        destruct (nth_error l (Z.to_nat i)) as [y|] eqn:Ey; [|discriminate].
+        assert (Hl1 : nth (Z.to_nat i) (idx_l1 q i kvs) VNull = y).
+        { unfold idx_l1. rewrite Hi. unfold idx_l0. rewrite Ea.
+          rewrite nth_grow_within by (eapply nth_error_Some_lt; exact Ey).
+          apply nth_error_nth. exact Ey. }
+        rewrite Hl1.
+        assert (Hhd : exists kk rr, (c2 ++ IS j :: r)%list = KS kk :: rr).
+        { destruct c2 as [|st3 c3].
+          - destruct (steps_head (s2 :: rest2) (IS j') r' Hr) as [kk Hkk]. discriminate.
+          - destruct (steps_head (s2 :: rest2) st3 (c3 ++ IS j' :: r')%list Hr) as [kk ->]. simpl. eauto. }
+        destruct Hhd as (kk & rr & Hrw).
+        assert (as_obj y = y) as -> by (rewrite Hrw in Hx; eapply lookup_some_head_obj; exact Hx).
+        eapply IH; eassumption.
 Qed.
 
 (* ================================================================== *)
